@@ -340,9 +340,10 @@ def run_chunk(job):
     else:
         wl = workload.make_workload(wl_seed, max_records=job.get("max_records", 24))
     bgzf = rng.random() < 0.15
+    gz_graph = rng.random() < 0.1
     wdir = os.path.join(scratch_dir(), "wl")
     shutil.rmtree(wdir, ignore_errors=True)
-    paths = workload.write_workload(wl, wdir, bgzf=bgzf)
+    paths = workload.write_workload(wl, wdir, bgzf=bgzf, gz_graph=gz_graph)
     if bgzf:
         d["bgzf_workloads"] += 1
     if scale_m is not None:
@@ -378,7 +379,7 @@ def run_chunk(job):
             d["violations"].append(
                 {"prop": prop, "sub": sub, "index": chunk * job["runs"], "run_id": cid + ":ref", "clause": "single-core-" + v[0], "message": v[1],
                  "key": "C11/single-core-%s" % v[0], "cfg": {"seed": "ref", "batch": shape[0], "cores": 1, "cpu_count": 16, "policy": {"name": "benign"}, "max_steps": 200000, "faults": []},
-                 "wl": wl, "bgzf": bgzf, "decisions": ref.decisions}
+                 "wl": wl, "bgzf": bgzf, "gz_graph": gz_graph, "decisions": ref.decisions}
             )
     n_runs = 2 if (shipped or scale_m is not None) else (4 if big else job["runs"])
     plans = []
@@ -502,7 +503,7 @@ def run_chunk(job):
             elif len(d["violations"]) < 2:
                 d["violations"].append(
                     {"prop": prop, "sub": sub, "index": i, "run_id": run_id, "clause": v["clause"], "message": v["message"], "key": v["key"],
-                     "cfg": cfg, "wl": wl, "bgzf": bgzf, "decisions": r.decisions}
+                     "cfg": cfg, "wl": wl, "bgzf": bgzf, "gz_graph": gz_graph, "decisions": r.decisions}
                 )
         if len(d["samples"]) < 1 and chunk % 25 == 0 and nontrivial(r) and r.steps >= 30:
             d["samples"].append(sample_of(run_id, wl, cfg, r))
@@ -538,7 +539,7 @@ def run_case(repo, case, decisions="case", keep_trace=False, workdir=None):
     """Execute a case dict(prop, wl, bgzf, cfg, decisions). Returns (result, verdict, ref_out)."""
     wdir = workdir or os.path.join(scratch_dir(), "case")
     shutil.rmtree(wdir, ignore_errors=True)
-    paths = workload.write_workload(case["wl"], wdir, bgzf=case.get("bgzf", False))
+    paths = workload.write_workload(case["wl"], wdir, bgzf=case.get("bgzf", False), gz_graph=case.get("gz_graph", False))
     ref = reference(repo, paths, case["cfg"].get("batch"))
     ref_out = ref.out or ""
     dec = case.get("decisions") if decisions == "case" else decisions
@@ -596,7 +597,7 @@ def shrink(repo, viol, budget_s=90.0, log=None):
     """Minimise workload, configuration and decision list while the violation key persists."""
     t_end = time.time() + budget_s
     key = viol["key"]
-    case = {k: viol[k] for k in ("prop", "sub", "wl", "bgzf", "cfg", "decisions", "run_id")}
+    case = {k: viol.get(k) for k in ("prop", "sub", "wl", "bgzf", "gz_graph", "cfg", "decisions", "run_id")}
     tried = [0]
 
     def test(c, dec):
@@ -634,6 +635,7 @@ def shrink(repo, viol, budget_s=90.0, log=None):
     def simplify_cfg():
         ch = False
         ch |= try_cfg(lambda c: c.__setitem__("bgzf", False))
+        ch |= try_cfg(lambda c: c.__setitem__("gz_graph", False))
         ch |= try_cfg(lambda c: c["cfg"].__setitem__("cpu_count", 16))
         ch |= try_cfg(lambda c: c["cfg"].__setitem__("pipe", dict(REAL_PIPE)))
         ch |= try_cfg(lambda c: c["cfg"].__setitem__("pickle_at_put", False))
@@ -791,6 +793,7 @@ def write_replay(path, repo, case, viol_key):
         "expected": {"key": v["key"] if v else None, "clause": v["clause"] if v else None, "message": v["message"] if v else None, "digest": r.digest},
         "original_key": viol_key,
         "bgzf": case.get("bgzf", False),
+        "gz_graph": case.get("gz_graph", False),
         "cfg": case["cfg"],
         "wl": case["wl"],
         "decisions": case["decisions"],
@@ -811,5 +814,5 @@ def write_replay(path, repo, case, viol_key):
 def load_replay(path):
     with open(path) as f:
         doc = json.load(f)
-    return {"prop": doc["property"], "sub": doc.get("sub"), "wl": doc["wl"], "bgzf": doc.get("bgzf", False), "cfg": doc["cfg"],
+    return {"prop": doc["property"], "sub": doc.get("sub"), "wl": doc["wl"], "bgzf": doc.get("bgzf", False), "gz_graph": doc.get("gz_graph", False), "cfg": doc["cfg"],
             "decisions": doc["decisions"], "run_id": doc.get("run_id")}, doc
